@@ -541,6 +541,12 @@ pub fn run_c10(o: &Opts) -> i32 {
         writeln!(aux, "{}", json!({"kind": "refuse"})).unwrap();
         writeln!(req, "{}", req_line(&format!("{} K -> 1 / {}", xt, a))).unwrap();
         writeln!(aux, "{}", json!({"kind": "refuse"})).unwrap();
+        // a dimensioned operand is refused whatever the target, the same scale included
+        writeln!(req, "{}", req_line(&format!("{} {} {} -> {}", xt, dimd, a, a))).unwrap();
+        writeln!(aux, "{}", json!({"kind": "refuse"})).unwrap();
+        writeln!(req, "{}", req_line(&format!("{} {} {} -> kelvin", xt, dimd, a))).unwrap();
+        writeln!(aux, "{}", json!({"kind": "refuse"})).unwrap();
+        total += 2;
         // the scale first, then the rest of a compound target
         let tails: Vec<String> = vec!["/s".into(), " m".into(), " / second".into(), " 2".into(), " garbage here".into(), format!(", {}", a), " + 1".into(), format!(" {}", a), " ^2".into(), "*3".into(), "|2".into(), " -> K".into(), " per s".into()];
         let tail = rng.pick(&tails).clone();
